@@ -9,7 +9,7 @@ TreeOf(nodes) == [p \in {nodes[j].path : j \in 1..Len(nodes)} |->
                     LET j == CHOOSE j \in 1..Len(nodes) : nodes[j].path = p IN [req |-> nodes[j].req, ch |-> nodes[j].ch]]
 SelOf(pairs) == [p \in {pairs[j][1] : j \in 1..Len(pairs)} |-> LET j == CHOOSE j \in 1..Len(pairs) : pairs[j][1] = p IN pairs[j][2]]
 InOf(x) == [argv |-> x.argv, aopt |-> ToSet(x.aopt), csel |-> SelOf(x.csel), csec |-> ToSet(x.csec), env |-> x.env,
-            esel |-> SelOf(x.esel), eopt |-> ToSet(x.eopt), strict |-> x.strict, dcf |-> x.dcf]
+            esel |-> SelOf(x.esel), eopt |-> ToSet(x.eopt), strict |-> x.strict, dcf |-> x.dcf, icfg |-> ToSet(x.icfg)]
 ResOf(o) == [err |-> o.err, levels |-> [j \in 1..Len(o.levels) |-> Level(o.levels[j].x, o.levels[j].chosen, ToSet(o.levels[j].sections))]]
 VARIABLE tidx
 Init == tidx \in 1..Len(Cases)
